@@ -10,6 +10,7 @@ import (
 	"path/filepath"
 	"sort"
 	"strconv"
+	"strings"
 	"sync"
 	"time"
 )
@@ -86,7 +87,14 @@ func (r *Reporter) Violation(signature, what string, replay map[string]interface
 	if _, ok := r.known[signature]; ok {
 		r.knownHits[signature]++
 		if _, ok := r.knownExample[signature]; !ok {
-			r.knownExample[signature] = what
+			ex := what
+			if i := strings.IndexByte(ex, '\n'); i >= 0 {
+				ex = ex[:i]
+			}
+			if len(ex) > 160 {
+				ex = ex[:160] + "..."
+			}
+			r.knownExample[signature] = ex
 		}
 		return
 	}
